@@ -122,6 +122,10 @@ def kinds(effects=("AO",)):
         add("rbac_AOe", SOA, SOAE, "AO",
             lambda k: And(Call("g", V("r" + k, "sub"), V("p" + k, "sub")), Eq(V("r" + k, "obj"), V("p" + k, "obj")),
                           Eq(V("r" + k, "act"), V("p" + k, "act"))), g={"g": 2})
+    for e in effects:
+        if e in ("AD", "DO", "PR"):
+            # the effect column is found by NAME (p_eft), wherever the policy definition puts it
+            add("acl_eftmid_" + e, SOA, ["sub", "eft", "obj", "act"], e, lambda k: eq3(k))
     add("no_users", ["obj", "act"], ["obj", "act"], "AO",
         lambda k: And(Eq(V("r" + k, "obj"), V("p" + k, "obj")), Eq(V("r" + k, "act"), V("p" + k, "act"))))
     add("no_resources", ["sub", "act"], ["sub", "act"], "AO",
